@@ -400,6 +400,29 @@ pub fn check_cmp(mv: &MV, p: &Prim) -> CaseResult {
                         format!("{} compared with string {:?} gives {:?}, expected all {}", short(mv), s, got, e),
                     ));
                 }
+                // operands that alias the value's own text: every sub-slice of
+                // it at character boundaries near both ends (equal only when it
+                // is the whole text, or when the text happens to repeat)
+                if let Some(own) = v.as_name() {
+                    let bounds: Vec<usize> = own.char_indices().map(|(i, _)| i).chain(std::iter::once(own.len())).collect();
+                    let near: Vec<usize> = bounds.iter().copied().take(3).chain(bounds.iter().copied().rev().take(3)).collect();
+                    for &a in &near {
+                        for &b in &near {
+                            if a > b {
+                                continue;
+                            }
+                            let piece: &str = &own[a..b];
+                            let e = v.as_str() == Some(piece);
+                            let got = [v == *piece, *piece == v, v == piece, piece == v];
+                            if got.iter().any(|g| *g != e) {
+                                return Err((
+                                    format!("op=cmp-str-aliased value={}", mv.kind()),
+                                    format!("{} compared with the slice [{}..{}] of its own text gives {:?}, expected all {}", short(mv), a, b, got, e),
+                                ));
+                            }
+                        }
+                    }
+                }
                 cls = "cmp:string";
                 nt = true;
             }
